@@ -62,6 +62,9 @@ T['s_cmp_csel'] = "s_cmp_lt_u32 s20, s21\n s_cselect_b32 s23, s22, s20"
 T['s_bfe'] = "s_bfe_u32 s21, s22, 0x80004\n s_and_b32 s22, s22, s23"
 T['s_64'] = "s_mov_b64 s[24:25], s[20:21]\n s_lshl_b64 s[24:25], s[24:25], 4\n s_xor_b32 s22, s24, s25"
 T['s_branch_skip'] = "s_cmp_eq_u32 s2, 0\n s_cbranch_scc1 L1\n s_add_u32 s20, s20, 11\nL1:\n s_add_u32 s21, s21, 1"
+# the address of the next instruction, relative to nothing but the program counter (PC-relative addressing of
+# constant data starts with this instruction): low 16 bits into a stored register
+T['s_getpc'] = "s_getpc_b64 s[24:25]\n s_and_b32 s20, s24, 0xffff"
 T['s_loop'] = "s_mov_b32 s24, 3\nL2:\n s_add_u32 s20, s20, s24\n s_sub_u32 s24, s24, 1\n s_cmp_lg_u32 s24, 0\n s_cbranch_scc1 L2"
 # --- VALU
 T['v_add'] = "v_add_u32 v20, vcc, v20, v21\n v_addc_u32 v22, vcc, v22, v23, vcc"
